@@ -10,66 +10,127 @@
 (* TLC checks that exclusion gives atomicity.  Weak = "subscribe" or       *)
 (* "unsubscribe" models that operation taking only a READ lock / no lock   *)
 (* (named deviations used to show the properties are not vacuous).         *)
+(*                                                                         *)
+(* One-shot observers (OneShots): the callback invalidates its own         *)
+(* observer (Observer::SelfView::invalidate).  Subject::notify removes an  *)
+(* invalidated observer lazily, right after its callback returned, INSIDE  *)
+(* the delivery loop: it erases it from the observer list and destroys it  *)
+(* (PostCb -> RemoveBegin ... RemoveEnd, two steps because the erase is    *)
+(* not atomic).  Removal / NotifyLock name the design alternatives:        *)
+(*   Removal = "inline", NotifyLock = "Read"   the code as it stands (F12) *)
+(*   Removal = "purge"    deliver under the read lock, then purge the      *)
+(*                        invalidated observers under the write lock       *)
+(*   NotifyLock = "Write" notify takes the write lock                      *)
 (***************************************************************************)
 EXTENDS Naturals, Sequences, FiniteSets
-CONSTANTS Threads, Obs, MaxOps, Weak
+CONSTANTS Threads, Obs, MaxOps, Weak,
+          OneShots,      \* observers that invalidate themselves in their first delivery
+          NotifyLock,    \* "Read" (the code) or "Write"
+          Removal        \* "inline" (the code) or "purge"
 VARIABLES active, returned, pending,        \* the lock (RWLock)
-          subs,                             \* subscribed observers
+          subs,                             \* subscribed observers (the observer list / id set of the subject)
           pc, op, arg, todo, inCb, opsLeft, \* per thread
-          retired                           \* observers whose unsubscribe() has returned
+          retired,                          \* observers whose unsubscribe() has returned
+          invalid,                          \* observers that invalidated themselves and are still listed
+          freed,                            \* observers that have been destroyed
+          listW,                            \* threads in the middle of a mutation of the observer list
+          calls                             \* deliveries per one-shot observer (capped at 2)
 lockvars == <<active, returned, pending>>
-vars == <<active, returned, pending, subs, pc, op, arg, todo, inCb, opsLeft, retired>>
+osvars == <<invalid, freed, listW, calls>>
+vars == <<active, returned, pending, subs, pc, op, arg, todo, inCb, opsLeft, retired, invalid, freed, listW, calls>>
 
 L == INSTANCE RWLock
 
 OpNames == {"notify", "subscribe", "unsubscribe", "shrink", "exists"}
-LockKind(o) == IF o \in {"notify", "exists"} \/ o = Weak THEN "Read" ELSE "Write"
+LockKind(o) == IF o = "notify" THEN NotifyLock
+               ELSE IF o = "exists" \/ o = Weak THEN "Read" ELSE "Write"
 
 Init == /\ L!PInit /\ subs = {} /\ retired = {}
         /\ pc = [t \in Threads |-> "idle"] /\ op = [t \in Threads |-> "exists"] /\ arg = [t \in Threads |-> 0]
         /\ todo = [t \in Threads |-> {}] /\ inCb = [t \in Threads |-> 0] /\ opsLeft = [t \in Threads |-> MaxOps]
+        /\ invalid = {} /\ freed = {} /\ listW = {} /\ calls = [o \in OneShots |-> 0]
 
 Call(t, o, a) == /\ pc[t] = "idle" /\ opsLeft[t] > 0 /\ o \in OpNames
-                 /\ a \in (IF o = "subscribe" THEN Obs \ (subs \cup retired) ELSE IF o = "unsubscribe" THEN subs ELSE {0})
+                 /\ a \in (IF o = "subscribe" THEN Obs \ (subs \cup retired \cup freed) ELSE IF o = "unsubscribe" THEN subs ELSE {0})
                  /\ \A u \in Threads : u # t => ~(pc[u] # "idle" /\ op[u] \in {"subscribe", "unsubscribe"} /\ arg[u] = a /\ a # 0)
                  /\ op' = [op EXCEPT ![t] = o] /\ arg' = [arg EXCEPT ![t] = a] /\ pc' = [pc EXCEPT ![t] = "acquire"]
                  /\ opsLeft' = [opsLeft EXCEPT ![t] = @ - 1]
-                 /\ UNCHANGED <<lockvars, subs, todo, inCb, retired>>
+                 /\ UNCHANGED <<lockvars, subs, todo, inCb, retired, osvars>>
 \* lock acquisition through the property layer (a parked request returns later)
 Acquire(t) == /\ pc[t] = "acquire"
               /\ \/ L!AcquireNow(t, LockKind(op[t])) /\ pc' = [pc EXCEPT ![t] = "lin"]
                  \/ L!Park(t, LockKind(op[t])) /\ pc' = [pc EXCEPT ![t] = "parked"]
-              /\ UNCHANGED <<subs, op, arg, todo, inCb, opsLeft, retired>>
+              /\ UNCHANGED <<subs, op, arg, todo, inCb, opsLeft, retired, osvars>>
 Wake(t) == /\ pc[t] = "parked" /\ L!Return(t) /\ pc' = [pc EXCEPT ![t] = "lin"]
-           /\ UNCHANGED <<subs, op, arg, todo, inCb, opsLeft, retired>>
+           /\ UNCHANGED <<subs, op, arg, todo, inCb, opsLeft, retired, osvars>>
 Lin(t) == /\ pc[t] = "lin"
-          /\ CASE op[t] = "subscribe" -> subs' = subs \cup {arg[t]} /\ UNCHANGED todo
-               [] op[t] = "unsubscribe" -> subs' = subs \ {arg[t]} /\ UNCHANGED todo
-               [] op[t] = "notify" -> todo' = [todo EXCEPT ![t] = subs] /\ UNCHANGED subs
-               [] OTHER -> UNCHANGED <<subs, todo>>
+          /\ CASE op[t] = "subscribe" -> subs' = subs \cup {arg[t]} /\ UNCHANGED <<todo, invalid, freed>>
+               \* through a stale handle (the observer was removed lazily in the meantime) nothing happens: the call throws
+               [] op[t] = "unsubscribe" -> /\ subs' = subs \ {arg[t]} /\ invalid' = invalid \ {arg[t]}
+                                           /\ freed' = IF arg[t] \in subs THEN freed \cup {arg[t]} ELSE freed
+                                           /\ UNCHANGED todo
+               [] op[t] = "notify" -> todo' = [todo EXCEPT ![t] = subs] /\ UNCHANGED <<subs, invalid, freed>>
+               [] op[t] = "purge" -> subs' = subs \ invalid /\ freed' = freed \cup invalid /\ invalid' = {} /\ UNCHANGED todo
+               [] OTHER -> UNCHANGED <<subs, todo, invalid, freed>>
           /\ pc' = [pc EXCEPT ![t] = "deliver"]
-          /\ UNCHANGED <<lockvars, op, arg, inCb, opsLeft, retired>>
-CbEnter(t, o) == /\ pc[t] = "deliver" /\ inCb[t] = 0 /\ o \in todo[t]
+          /\ UNCHANGED <<lockvars, op, arg, inCb, opsLeft, retired, listW, calls>>
+\* `if (isSubscriptionIdValid(id)) (*observer)(args...)`: an observer that left the list since the snapshot is skipped,
+\* Observer::operator() itself does not call an invalidated observer
+CbEnter(t, o) == /\ pc[t] = "deliver" /\ inCb[t] = 0 /\ o \in todo[t] /\ o \in subs /\ o \notin invalid
                  /\ inCb' = [inCb EXCEPT ![t] = o] /\ todo' = [todo EXCEPT ![t] = @ \ {o}]
-                 /\ UNCHANGED <<lockvars, subs, pc, op, arg, opsLeft, retired>>
+                 /\ calls' = IF o \in OneShots THEN [calls EXCEPT ![o] = IF @ < 2 THEN @ + 1 ELSE @] ELSE calls
+                 /\ UNCHANGED <<lockvars, subs, pc, op, arg, opsLeft, retired, invalid, freed, listW>>
+CbSkip(t, o) == /\ pc[t] = "deliver" /\ inCb[t] = 0 /\ o \in todo[t] /\ o \notin subs
+                /\ todo' = [todo EXCEPT ![t] = @ \ {o}]
+                /\ UNCHANGED <<lockvars, subs, pc, op, arg, inCb, opsLeft, retired, osvars>>
+\* an invalidated observer that is still listed: not called, but the same lazy-removal test follows
+CbInvalid(t, o) == /\ pc[t] = "deliver" /\ inCb[t] = 0 /\ o \in todo[t] /\ o \in subs /\ o \in invalid
+                   /\ todo' = [todo EXCEPT ![t] = @ \ {o}]
+                   /\ arg' = [arg EXCEPT ![t] = o] /\ pc' = [pc EXCEPT ![t] = "postcb"]
+                   /\ UNCHANGED <<lockvars, subs, op, inCb, opsLeft, retired, osvars>>
 CbExit(t) == /\ pc[t] = "deliver" /\ inCb[t] # 0 /\ inCb' = [inCb EXCEPT ![t] = 0]
-             /\ UNCHANGED <<lockvars, subs, pc, op, arg, todo, opsLeft, retired>>
+             /\ invalid' = IF inCb[t] \in OneShots THEN invalid \cup {inCb[t]} ELSE invalid
+             /\ arg' = [arg EXCEPT ![t] = inCb[t]] /\ pc' = [pc EXCEPT ![t] = "postcb"]
+             /\ UNCHANGED <<lockvars, subs, op, todo, opsLeft, retired, freed, listW, calls>>
+\* `if (isSubscriptionIdValid(id) && !observer->isValid()) unsubscribeById(id)`
+PostCb(t) == /\ pc[t] = "postcb"
+             /\ IF Removal = "inline" /\ arg[t] \in subs /\ arg[t] \in invalid
+                THEN pc' = [pc EXCEPT ![t] = "removing"] /\ listW' = listW \cup {t}
+                ELSE pc' = [pc EXCEPT ![t] = "deliver"] /\ UNCHANGED listW
+             /\ UNCHANGED <<lockvars, subs, op, arg, todo, inCb, opsLeft, retired, invalid, freed, calls>>
+RemoveEnd(t) == /\ pc[t] = "removing"
+                /\ subs' = subs \ {arg[t]} /\ invalid' = invalid \ {arg[t]} /\ freed' = freed \cup {arg[t]}
+                /\ listW' = listW \ {t} /\ pc' = [pc EXCEPT ![t] = "deliver"]
+                /\ UNCHANGED <<lockvars, op, arg, todo, inCb, opsLeft, retired, calls>>
 Finish(t) == /\ pc[t] = "deliver" /\ inCb[t] = 0 /\ todo[t] = {}
-             /\ L!Release(t) /\ pc' = [pc EXCEPT ![t] = "idle"]
+             /\ L!Release(t)
              /\ retired' = IF op[t] = "unsubscribe" THEN retired \cup {arg[t]} ELSE retired
-             /\ UNCHANGED <<subs, op, arg, todo, inCb, opsLeft>>
+             \* the alternative design: whoever saw invalidated observers comes back for them with the write lock
+             /\ IF Removal = "purge" /\ op[t] = "notify" /\ invalid # {}
+                THEN pc' = [pc EXCEPT ![t] = "acquire"] /\ op' = [op EXCEPT ![t] = "purge"]
+                ELSE pc' = [pc EXCEPT ![t] = "idle"] /\ UNCHANGED op
+             /\ UNCHANGED <<subs, arg, todo, inCb, opsLeft, osvars>>
 
 Next == \E t \in Threads : \/ \E o \in OpNames, a \in Obs \cup {0} : Call(t, o, a)
-                           \/ Acquire(t) \/ Wake(t) \/ Lin(t) \/ Finish(t) \/ CbExit(t)
-                           \/ \E o \in Obs : CbEnter(t, o)
+                           \/ Acquire(t) \/ Wake(t) \/ Lin(t) \/ Finish(t) \/ CbExit(t) \/ PostCb(t) \/ RemoveEnd(t)
+                           \/ \E o \in Obs : CbEnter(t, o) \/ CbSkip(t, o) \/ CbInvalid(t, o)
 Spec == Init /\ [][Next]_vars
 
 (* ---- C11 ---- *)
-InDelivery(t) == pc[t] = "deliver" /\ op[t] = "notify" /\ (todo[t] # {} \/ inCb[t] # 0)
+InDelivery(t) == pc[t] \in {"deliver", "postcb", "removing"} /\ op[t] = "notify" /\ (todo[t] # {} \/ inCb[t] # 0 \/ pc[t] # "deliver")
 \* no subscribe / unsubscribe / shrink takes effect while a delivery is in progress
-NoWriteDuringDelivery == [][\A t \in Threads : (pc[t] = "lin" /\ pc'[t] = "deliver" /\ op[t] \in {"subscribe", "unsubscribe", "shrink"})
+NoWriteDuringDelivery == [][\A t \in Threads : (pc[t] = "lin" /\ pc'[t] = "deliver" /\ op[t] \in {"subscribe", "unsubscribe", "shrink", "purge"})
                                => \A u \in Threads : u # t => ~InDelivery(u)]_vars
 \* once unsubscribe() has returned, that observer is never invoked again
 NoCallAfterUnsubscribe == \A t \in Threads : inCb[t] # 0 => inCb[t] \notin retired
 NoDeadlock == (ENABLED Next) \/ \A t \in Threads : pc[t] = "idle" /\ opsLeft[t] = 0
+
+(* ---- one-shot observers (F12) ---- *)
+Inside(u) == pc[u] \in {"lin", "deliver", "postcb", "removing"}
+\* whoever mutates the observer list is alone inside the router (C15 at the design level)
+ListWriteExclusive == \A t \in listW : \A u \in Threads \ {t} : ~Inside(u)
+\* nobody is inside the callback of an observer that has been destroyed
+NoUseAfterFree == \A t \in Threads : inCb[t] # 0 => inCb[t] \notin freed
+\* "as if executed one at a time": a one-shot observer is delivered to at most once
+OneShotOnce == \A o \in OneShots : calls[o] <= 1
 =============================================================================
